@@ -130,6 +130,11 @@ func TestC41Conn(t *testing.T) {
 						ns := newSaltFor[tag][0]
 						newSaltFor[tag] = newSaltFor[tag][1:]
 						told[ns] = true
+						// bad_server_salt voids what the client knew about salts: it takes
+						// the new salt and forgets the future salts it had stored (they belong
+						// to the state the server has just called wrong), so from here on they
+						// are neither usable nor an alternative
+						stored = stored[:0]
 						_ = p.Send(p.NextID(1), 0, pbt.BadServerSalt(m.MsgID, m.SeqNo, ns))
 						return
 					}
